@@ -808,3 +808,90 @@ def gen_c07(seed, tier):  # noqa: F811
 
 GEN["C06"] = gen_c06
 GEN["C07"] = gen_c07
+
+
+# ---- C10: work conservation at quiescent instants, rendezvous ------------------
+_gen_c10_base = gen_c10
+
+
+def gen_c10(seed, tier):  # noqa: F811
+    rng = worldgen.child_rng(seed, "c10x")
+    if seed % 9 == 0:
+        w = rng.randrange(2, 7)
+        nodes = [dict(id=i, kind="call", args=[], kwargs=[], deps=[], scope=[], dur=0.0, ret="val", fname="f", depth=0,
+                      rendezvous=True) for i in range(w)]
+        nodes.append(dict(id=w, kind="call", args=[["n", i] for i in range(w)], kwargs=[], deps=[], scope=[], dur=0.0,
+                          ret="val", fname="g", depth=0))
+        world = dict(nodes=nodes, stores={}, late_deps=[], output=["n", w])
+        cfg = dict(max_workers=w + rng.choice([0, 0, 1, 3]), scheduler=rng.choice([None, "default", "random"]),
+                   max_errors=0, retry=None, stale_workers=None, output=True, rendezvous=w)
+        return dict(seed=seed, world=world, ops=[dict(op="run", cfg=cfg)], sched=worldgen.gen_sched(rng), rendezvous=w)
+    desc = _gen_c10_base(seed, tier)
+    if seed % 9 in (1, 2, 3) and not any(n.get("store") for n in desc["world"]["nodes"]):
+        # failure-free run with mostly non-zero durations: conservation is checked at every clock jump
+        op = desc["ops"][0]
+        op["faults"] = dict(calls={})
+        for n in desc["world"]["nodes"]:
+            if n["kind"] == "call":
+                n["dur"] = rng.choice([1.0, 2.0, 3.0, 5.0, 0.0])
+        op["cfg"]["conservation"] = True
+    return desc
+
+
+GEN["C10"] = gen_c10
+
+
+def exec_c10(prop, desc):
+    hist = machine.History(desc)
+    hist.init_sources()
+    tapes = desc.get("tapes") or {}
+    world = desc["world"]
+    op = desc["ops"][0]
+    nodes = ref.by_id(world)
+
+    def hook(sim, rt, built, kwargs):
+        if not op["cfg"].get("conservation"):
+            return
+        ds = ref.deps_star(world)
+        need = set()
+        if world.get("output") is not None and op["cfg"].get("output", True):
+            for r in ref.spec_refs(world["output"]):
+                need.add(r)
+                need |= ds[r]
+        need = {i for i in need if nodes[i]["kind"] == "call"}
+        started, ok = set(), set()
+        pos = [0]
+
+        def on_quiescent(now, nxt):
+            evs = sim.events
+            for ev in evs[pos[0]:]:
+                if ev[3] == "call-start":
+                    started.add(ev[4])
+                elif ev[3] == "call-end" and ev[6] == "ok":
+                    ok.add(ev[4])
+            pos[0] = len(evs)
+            if rt.conservation is not None or not started:
+                return
+            ready = [c for c in need if c not in started and all(d in ok for d in ds[c] if d in need)]
+            sim.probe("quiescent-instants")
+            if ready and rt.inflight < op["cfg"]["max_workers"]:
+                rt.conservation = (f"at virtual time {now} everything is blocked, {rt.inflight} call(s) are executing with "
+                                   f"max_workers={op['cfg']['max_workers']}, yet calls {sorted(ready)} are ready and not started")
+
+        sim.on_quiescent.append(on_quiescent)
+
+    rec = machine.run_op(hist, op, 0, tape=tapes.get("0"), sim_hook=hook)
+    viol = O.o_limits(rec, world, hist)
+    if not viol and rec.rt.conservation:
+        viol.append(O.V("not-work-conserving", rec.rt.conservation))
+    if not viol and desc.get("rendezvous"):
+        if rec.sim.hung is not None:
+            viol.append(O.V("max-workers-not-parallel", f"{desc['rendezvous']} independent calls that wait for each other did "
+                                                        f"not all run concurrently with max_workers={op['cfg']['max_workers']}: "
+                                                        f"{rec.sim.hung['why']}"))
+        elif rec.exc is not None:
+            viol.append(O.V("rendezvous-failed", f"rendezvous run raised {rec.exc!r}"))
+    return result(desc, hist, viol)
+
+
+EXEC["C10"] = exec_c10
